@@ -66,7 +66,7 @@ BInsn(t) == I(BOpc(t), t[6], t[7], t[8], t[9])
 \* text of a built instruction when the assembler has a mnemonic for it and it is canonical
 BText(t) == LET i == BInsn(t)
                 ok == i.opc \in Supported /\ i.opc # LDDW /\ HasMnemonic(i) /\ Canon(i) = i /\ i.imm >= 0
-                      /\ (IsEndian(i.opc) => i.imm \in {16, 32, 64})
+                      /\ (IsEndian(i.opc) => i.imm \in {16, 32, 64}) /\ (i.opc = CALL => i.src \in {0, 1})
             IN IF ok THEN << [mn |-> DescMn(i), ops |-> DescOps(i, I(0,0,0,0,0))] >> ELSE <<>>
 
 InverseOK == (phase = "case" /\ cand[1] = "enc") =>
